@@ -217,6 +217,9 @@ class StandardMonitors:
         self.bump("C01.populate_live_points")
         P = lambda key, d: self.problem("C01", "initial:" + key, d)
         live = ns.live_points
+        if len(ns.nested_samples) or ns.iteration:
+            # an initial live set is only ever drawn before anything has been discarded (a resumed sampler continues with the pickled live set)
+            P("drawn-after-points-were-discarded", dict(nested_samples=len(ns.nested_samples), iteration=int(ns.iteration)))
         if live is None or len(live) != ns.nlive:
             P("size", None if live is None else len(live))
             return
